@@ -684,7 +684,7 @@ func (streamSetSelf *StreamSetForInterfaceDef) IsSubsetByKey(input *StreamSetFor
 // IsSupersetByKey TODO NOTE !!Duplicated!! returns true or false by checking if set1 is a superset of set2
 func (streamSetSelf *StreamSetForInterfaceDef) IsSupersetByKey(input *StreamSetForInterfaceDef) bool {
 	if input == nil || input.Size() == 0 {
-		return true
+		return false
 	}
 
 	return streamSetSelf.SetForInterfaceDef.IsSupersetByKey(&input.SetForInterfaceDef)
